@@ -110,6 +110,8 @@ def neighbors(case):
 def close(a, b, tol=1e-9):
     if a == b:
         return True
+    if isinstance(a, int) and isinstance(b, int) and not isinstance(a, bool) and not isinstance(b, bool):
+        return False  # integers are compared exactly (a relative tolerance would hide small steps on big costs)
     try:
         if math.isinf(a) or math.isinf(b):
             return a == b
@@ -120,7 +122,7 @@ def close(a, b, tol=1e-9):
 
 # ----------------------------------------------------------------------------- generation
 
-PALETTES = ("ties", "distinct", "float", "neg", "huge", "hard")
+PALETTES = ("ties", "distinct", "float", "neg", "huge", "hard", "bigbase", "bin")
 
 
 def draw_cost(rng, palette, hard_value=10000):
@@ -136,6 +138,11 @@ def draw_cost(rng, palette, hard_value=10000):
         return rng.choice([0, 1, 2 ** 31 + rng.randint(0, 50), 2 ** 33 + rng.randint(0, 5), 7])
     if palette == "hard":
         return rng.choice([0, 0, 0, hard_value, rng.randint(1, 5)])
+    if palette == "bin":
+        return rng.choice([0, 0, 1, 2])  # many exact gain ties
+    if palette == "bigbase":
+        # an unavoidable big penalty plus a small soft cost: relative differences around 1e-12
+        return 10 ** 12 + rng.randint(0, 9)
     raise ValueError(palette)
 
 
